@@ -172,7 +172,7 @@ class AbsGroup:
     def arbitrary_element(self, seed):
         assert isinstance(seed, bytes)
         c = Ctx.cur
-        v = z3.Int("dlog_%s_%s" % (self.tag, seed.hex() or "empty"))
+        v = z3.Int("dlog_%s_%s" % (self.tag, seed.hex()))
         c.side += [v >= 1, v < self.q]
         c.table("seeds").append((self, seed, v))
         return AbsElem(self, v)
